@@ -147,7 +147,7 @@ from typing import Any, TypeAlias
 from ...ast.fpyast import *
 from ...ast.visitor import Visitor
 from ...function import Function
-from ...number import INTEGER, REAL, Context, Float, RealFloat
+from ...number import INTEGER, REAL, RM, Context, Float, RealFloat
 from ...number.format import REAL_FORMAT, Format
 from ...types import (
     BoolType,
@@ -1890,6 +1890,29 @@ class _FormatInferInstance(Visitor):
         )
         return self._materialize_in_scope(overlap, scope_fmt)
 
+    def _zero_sum_bound(
+        self,
+        e: ContextUseSite,
+        exact: SetFormat | AbstractFormat | None,
+    ) -> FormatBound | None:
+        """:meth:`_bound_if_fits` for a sum or a difference.
+
+        Terms of unlike sign that cancel give ``-0`` when the scope rounds
+        toward negative (IEEE 754 6.3) and ``+0`` otherwise; the exact
+        arithmetic *exact* was computed with knows only the second rule.  A
+        scope that rounds toward negative therefore takes the exact result
+        only if it already admits ``-0`` or cannot be zero.
+        """
+        resolved = self._resolve_active_ctx(e)
+        if exact is not None and getattr(resolved, 'rm', None) is RM.RTN:
+            if isinstance(exact, SetFormat):
+                lacks = Fraction(0) in exact.values and NEG_ZERO not in exact.values
+            else:
+                lacks = not exact.has_neg_zero
+            if lacks:
+                return None
+        return self._bound_if_fits(e, exact)
+
     @staticmethod
     def _materialize_in_scope(
         cand: AbstractFormat, scope_fmt: Format,
@@ -2155,7 +2178,7 @@ class _FormatInferInstance(Visitor):
         af_acc = af_elt
         for _ in range(n - 1):
             af_acc = af_acc + af_elt
-        fitted = self._bound_if_fits(e, af_acc)
+        fitted = self._zero_sum_bound(e, af_acc)
         return fitted if fitted is not None else self._op_bound(e)
 
     def _range_elt_format(self, start: int, stop: int, step: int) -> FormatBound:
@@ -2222,13 +2245,13 @@ class _FormatInferInstance(Visitor):
                 # the active scope's format contains it; see
                 # :meth:`_bound_if_fits`.  Subsumes the legacy REAL-only
                 # fast path (REAL_FORMAT contains everything).
-                fitted = self._bound_if_fits(
+                fitted = self._zero_sum_bound(
                     e, exact_binop(lhs, rhs, operator.add, cap=self._set_format_threshold),
                 )
                 if fitted is not None:
                     return fitted
             case Sub():
-                fitted = self._bound_if_fits(
+                fitted = self._zero_sum_bound(
                     e, exact_binop(lhs, rhs, operator.sub, cap=self._set_format_threshold),
                 )
                 if fitted is not None:
